@@ -2,13 +2,21 @@
 // beyond round_int_stubs.rs / round_int_addsub_stubs.rs / round_float_repr.rs / conv_fbig_stubs.rs / ebounds_stubs.rs.
 // EVERY external_body contract here is a TRUSTED ASSUMPTION about the lower layer; each was read off the real function.
 
+/// k is the floor logarithm of |v| in base b: b^k <= |v| < b^(k+1)
+pub open spec fn tf_ilog_is(b: int, v: int, k: nat) -> bool { ipow(b, k) <= iabs(v) && iabs(v) < ipow(b, k + 1) }
 impl IBig {
+    /// integer/src/sign.rs `IBig::signum`: ONE / ZERO / NEG_ONE  (not used by the current to_float; present so that the
+    /// earlier sticky-digit version `q * base + r.signum()` is judged by the contract instead of being rejected)
+    #[verifier::external_body]
+    pub fn signum(&self) -> (r: IBig)
+        ensures self.v() > 0 ==> r.v() == 1, self.v() == 0 ==> r.v() == 0, self.v() < 0 ==> r.v() == -1
+    { unimplemented!() }
     /// integer/src/log.rs `IBig::ilog`: "Calculate the (truncated) logarithm of the magnitude of IBig"; "Panics if the
     /// number is 0, or the base is 0 or 1" (`TypedReprRef::log` returns (log, base^log) with base^log <= |self| < base^(log+1))
     #[verifier::external_body]
     pub fn ilog(&self, base: &UBig) -> (r: usize)
         requires self.v() != 0, base.v() >= 2
-        ensures ipow(base.v(), r as nat) <= iabs(self.v()), iabs(self.v()) < ipow(base.v(), (r + 1) as nat)
+        ensures tf_ilog_is(base.v(), self.v(), r as nat)
     { unimplemented!() }
 }
 impl UBig {
@@ -16,7 +24,7 @@ impl UBig {
     #[verifier::external_body]
     pub fn ilog(&self, base: &UBig) -> (r: usize)
         requires self.v() != 0, base.v() >= 2
-        ensures ipow(base.v(), r as nat) <= self.v(), self.v() < ipow(base.v(), (r + 1) as nat)
+        ensures tf_ilog_is(base.v(), self.v(), r as nat)
     { unimplemented!() }
     /// integer/src/ubig.rs `UBig::as_ibig(&self) -> &IBig`: the same number seen as a signed one
     #[verifier::external_body]
